@@ -171,6 +171,14 @@ class Doc:
             x, y, w, h = la("x", "x"), la("y", "y"), la("width", "x", True), la("height", "y", True)
             pts = [(x, y), (x + w, y), (x + w, y + h), (x, y + h)]
             geo = dict(kind="Rect", pts=pts, closed=True)
+        elif kind == "rect_round":
+            # rounded rectangle, radii below half the sides (no clamping): SVG 2 decomposition, segment end points only
+            x, y, w, h = la("x", "x"), la("y", "y"), la("width", "x", True), la("height", "y", True)
+            rx, ry = la("rx", "x", True), la("ry", "y", True)
+            ctx.assume(ctx.and_(ctx.xlt(2 * rx, w), ctx.xlt(2 * ry, h)))
+            pts = [(x + rx, y), (x + w - rx, y), (x + w, y + ry), (x + w, y + h - ry), (x + w - rx, y + h), (x + rx, y + h), (x, y + h - ry), (x, y + ry), (x + rx, y)]
+            geo = dict(kind="Rect", pts=pts, closed=True)
+            kind = "rect"
         elif kind == "rect_noxy":
             w, h = la("width", "x", True), la("height", "y", True)
             pts = [(0, 0), (w, 0), (w, h), (0, h)]
